@@ -9,6 +9,7 @@
 #include "fiber_semaphore.h"
 #include "fiber_barrier.h"
 #include "fiber_channel.h"
+#include "fiber_rwlock.h"
 #include <sys/socket.h>
 #include <unistd.h>
 
@@ -25,6 +26,8 @@ static fiber_bounded_channel_t* chans[RT_MAX_THREADS];
 static _Atomic int receiving[RT_MAX_THREADS];
 /* two multi-waiter signals (include/fiber_signal.h, fiber_multi_signal_*): any fiber may wait, any fiber may raise */
 static fiber_multi_signal_t msig[2];
+static fiber_rwlock_t rwl;
+static _Atomic int rw_readers, rw_writers;
 static _Atomic long ms_raised[2], ms_returned[2];
 static _Atomic int ms_waiting[2];
 
@@ -96,6 +99,27 @@ static void* fiber_prog(void* param) {
         fiber_multi_signal_raise(&msig[w]);
         break;
       }
+      case 21: {  /* read section on the rwlock (yield inside, so that sections overlap and fibers migrate while holding) */
+        if (held[0] || held[1]) break;
+        if (a ? fiber_rwlock_tryrdlock(&rwl) != FIBER_SUCCESS : (fiber_rwlock_rdlock(&rwl), 0)) break;
+        atomic_fetch_add(&rw_readers, 1);
+        if (atomic_load(&rw_writers)) r = 78;
+        fiber_yield();
+        if (atomic_load(&rw_writers)) r = 78;
+        atomic_fetch_sub(&rw_readers, 1);
+        fiber_rwlock_rdunlock(&rwl);
+        break;
+      }
+      case 22: {  /* write section */
+        if (held[0] || held[1]) break;
+        if (a ? fiber_rwlock_trywrlock(&rwl) != FIBER_SUCCESS : (fiber_rwlock_wrlock(&rwl), 0)) break;
+        if (atomic_fetch_add(&rw_writers, 1) != 0 || atomic_load(&rw_readers)) r = 78;
+        fiber_yield();
+        if (atomic_load(&rw_writers) != 1 || atomic_load(&rw_readers)) r = 78;
+        atomic_fetch_sub(&rw_writers, 1);
+        fiber_rwlock_wrunlock(&rwl);
+        break;
+      }
       case 18: usleep(1000 + 4000 * (unsigned)a); break;   /* fiber sleep of 2 or 6 virtual ticks (the main fiber advances time) */
       case 15: fiber_cond_signal(&cond); break;      /* signal WITHOUT holding the user mutex */
       case 16: fiber_cond_broadcast(&cond); break;   /* broadcast WITHOUT holding the user mutex */
@@ -153,6 +177,7 @@ static void main_fiber(void) {
   fiber_mutex_init(&mtx[0]); fiber_mutex_init(&mtx[1]);
   fiber_cond_init(&cond);
   fiber_semaphore_init(&sem, 0);
+  fiber_rwlock_init(&rwl); rw_readers = 0; rw_writers = 0;
   for (int w = 0; w < 2; w++) { fiber_multi_signal_init(&msig[w]); ms_raised[w] = 0; ms_returned[w] = 0; ms_waiting[w] = 0; }
   for (int f = 0; f < nf; f++) { fiber_signal_init(&sigs[f]); chans[f] = fiber_bounded_channel_create(2, &sigs[f]); receiving[f] = 0; }
   /* optional 3rd parameter: the main fiber's FIRST blocking call is a sleep (1: before it creates the fibers, 2: right
